@@ -56,6 +56,46 @@ Proof.
   destruct (n - 1 <=? i); cbn [fst]; [exact Ha|apply IH; exact Ha].
 Qed.
 
+Lemma sn_join_exited s0 : sn (fst (join_exited s0)) = sn s0.
+Proof. unfold join_exited. destruct (filter _ (rev _)); reflexivity. Qed.
+
+Lemma sn_repopulate : forall fuel i cs s2, sn (fst (repopulate fuel i cs s2)) = sn s2.
+Proof.
+  induction fuel as [|f IH]; intros; cbn [repopulate]; [reflexivity|].
+  destruct (negb (pstate s2 =? 0)); [reflexivity|].
+  match goal with |- context [if ?c then Restart.step (rst s2) (now s2) else (rst s2, false)] =>
+    destruct (if c then Restart.step (rst s2) (now s2) else (rst s2, false)) as [r raised] end.
+  destruct raised; [reflexivity|].
+  destruct (avail_index (with_rst s2 r)); [|reflexivity]. rewrite IH. reflexivity.
+Qed.
+
+Lemma SemB_do_tick s0 : SemB s0 -> SemB (fst (do_tick s0)).
+Proof.
+  intros H0. unfold do_tick. pose proof (sn_join_exited s0) as Hje.
+  destruct (join_exited s0) as [s1 codes]. cbn [fst] in Hje.
+  pose proof (sn_repopulate (Z.to_nat (nprocs s1 - Z.of_nat (length (wlist s1)))) 0%nat codes s1) as H1.
+  destruct (repopulate _ 0 codes s1) as [s2 r]. cbn [fst] in H1.
+  assert (H2 : SemB s2) by (apply (SemB_sn s0); [rewrite H1; exact Hje|exact H0]).
+  destruct r; cbn [fst]; try exact H2.
+  unfold release_n, SemB in *. cbn [sem nprocs with_sem]. rewrite bp_iter_release. exact H2.
+Qed.
+
+Lemma SemB_do_close s0 : SemB s0 -> SemB (do_close s0).
+Proof. intros H. unfold do_close. destruct (pstate s0 =? 0); exact H. Qed.
+
+Lemma SemB_do_tick_close s0 k : SemB s0 -> SemB (fst (do_tick_close s0 k)).
+Proof.
+  intros H0. unfold do_tick_close. pose proof (sn_join_exited s0) as Hje. pose proof (SemB_do_tick s0 H0) as Ht.
+  destruct (join_exited s0) as [s1 codes]. cbn [fst] in Hje.
+  destruct (Z.to_nat (nprocs s1 - Z.of_nat (length (wlist s1))) <=? k)%nat; [exact Ht|].
+  pose proof (sn_repopulate (S k) 0%nat codes s1) as H1.
+  destruct (repopulate (S k) 0 codes s1) as [s2 r]. cbn [fst] in H1.
+  assert (H2 : SemB s2) by (apply (SemB_sn s0); [rewrite H1; exact Hje|exact H0]).
+  destruct r; cbn [fst]; try exact H2.
+  pose proof (SemB_do_close s2 H2) as H3.
+  unfold release_n, SemB in *. cbn [sem nprocs with_sem]. rewrite bp_iter_release. exact H3.
+Qed.
+
 Theorem SemB_step s e : 0 <= match e with EGrow n => n | _ => 0 end -> SemB s -> SemB (fst (step s e)).
 Proof.
   intros Hn H. destruct e; unfold step; cbn [fst]; try exact H.
@@ -98,24 +138,7 @@ Proof.
     + inversion Hb as [[Hs Hn']]. rewrite Hs, Hn'. exact H.
     + cbn [sem nprocs with_sem]. inversion Hb as [[Hs Hn']]. rewrite Hs, Hn', bp_release. exact H.
   - (* tick *)
-    change (SemB (fst (do_tick (with_sigs s [])))).
-    assert (H0 : SemB (with_sigs s [])) by exact H. revert H0.
-    generalize (with_sigs s []). intros s0 H0. unfold do_tick.
-    assert (Hje : sn (fst (join_exited s0)) = sn s0).
-    { unfold join_exited. destruct (filter _ (rev _)); reflexivity. }
-    destruct (join_exited s0) as [s1 codes]. cbn [fst] in Hje.
-    assert (Hrp : forall fuel i cs s2, sn (fst (repopulate fuel i cs s2)) = sn s2).
-    { induction fuel as [|f IH]; intros; cbn [repopulate]; [reflexivity|].
-      destruct (negb (pstate s2 =? 0)); [reflexivity|].
-      match goal with |- context [if ?c then Restart.step (rst s2) (now s2) else (rst s2, false)] =>
-        destruct (if c then Restart.step (rst s2) (now s2) else (rst s2, false)) as [r raised] end.
-      destruct raised; [reflexivity|].
-      destruct (avail_index (with_rst s2 r)); [|reflexivity]. rewrite IH. reflexivity. }
-    pose proof (Hrp (Z.to_nat (nprocs s1 - Z.of_nat (length (wlist s1)))) 0%nat codes s1) as H1.
-    destruct (repopulate _ 0 codes s1) as [s2 r]. cbn [fst] in H1.
-    assert (H2 : SemB s2) by (apply (SemB_sn s0); [rewrite H1; exact Hje|exact H0]).
-    destruct r; cbn [fst]; try exact H2.
-    unfold release_n, SemB in *. cbn [sem nprocs with_sem]. rewrite bp_iter_release. exact H2.
+    apply (SemB_do_tick (with_sigs s [])). exact H.
   - (* scan *)
     apply (SemB_sn s); [|exact H].
     change (sn (with_todo (fst (do_scan (with_sigs s []) lingers)) []) = sn (with_sigs s [])).
@@ -132,10 +155,11 @@ Proof.
   - unfold SemB in *. cbn [sem nprocs with_sem with_nprocs with_sigs]. rewrite bp_iter_grow. cbn in Hn. lia.
   - unfold do_shrink. destruct (inactive _) as [|w ws]; [exact H|].
     destruct (LaxSem.value _ <? _); [exact H|]. apply SemB_shrink_loop. exact H.
-  - destruct (pstate _ =? 0); [|exact H]. exact H.
+  - apply (SemB_do_close (with_sigs s [])). exact H.
   - unfold do_next. destruct (get_job _ j) as [x|]; [|exact H].
     destruct (negb (is_imap x)); [exact H|].
     destruct (items x); [destruct (okey_eqb _ _)|]; exact H.
+  - apply (SemB_do_tick_close (with_sigs s [])). exact H.
 Qed.
 
 Lemma SemB_init c : SemB (init c).
